@@ -290,9 +290,15 @@ def main():
         if not p["floor_ok"]:
             broken.append("observed nothing: %d distinct non-trivial cases < floor %d (%s)" % (
                 p["distinct_nontrivial"], p["floor"], "race" if p["race"] else "plain"))
+        seen_cls = set()
         for v in p["violations"] or []:
+            if v["class"] in seen_cls:
+                continue
+            seen_cls.add(v["class"])
             viol_lines.append("VIOLATION property=%s replay=%s" % (cid, v["replay"] or "none"))
-            print("  [%s] %s" % (v["class"], v["brief"][:300]))
+            print("  [%s] x%d %s" % (v["class"], (p.get("violation_classes") or {}).get(v["class"], 1), v["brief"][:300]))
+        for k, v in (p.get("violation_classes") or {}).items():
+            cov.setdefault("violation_classes", {})[k] = cov.get("violation_classes", {}).get(k, 0) + v
         for k in p["known"] or []:
             known_lines.append((k["class"], "KNOWN-FINDING: property=%s %s [class=%s, %d cases]" % (cid, k["what"], k["class"], k["count"])))
         # race reports
